@@ -57,6 +57,16 @@ Definition list_plan_of (raw : Z) (mlsd_50x : bool) : list_plan :=
   else if negb mlsd_50x then UseMLSD
   else if raw =? 0 then UseLIST else RaiseStatus.
 
+(* A CONNECTION's history of list() calls.  Each call is (raw, mlsd_50x of THAT call).  Client.list keeps
+   nothing between calls (no "this server has no MLSD" memory): the plan of every call is list_plan_of of
+   that call alone; refused commands earlier on the connection (a listing before login answered 503, a
+   forbidden path answered 550, an unknown command answered 502) are not arguments of anything. *)
+Definition list_plans (calls : list (Z * bool)) : list list_plan :=
+  map (fun c => list_plan_of (fst c) (snd c)) calls.
+
+Definition plan_code (p : list_plan) : Z :=
+  match p with UseMLSD => 0 | UseLIST => 1 | RaiseStatus => 2 end.
+
 (* ---- Client.stat ---- *)
 Definition t_start : text := [115; 116; 97; 114; 116].
 Definition t_end : text := [101; 110; 100].
@@ -140,5 +150,8 @@ Definition run_listing_client (fn : Z) (a : sx) : sx :=
          | Some _ => 1 | None => 0 end)
   | 36 => (* _format_mlsx_time of the float num/den (den > 0) *)
       sx_of_text (format_mlsx_time_real (Qmake (z 0%nat) (Z.to_pos (z 1%nat))))
+  | 37 => (* list_plans over a connection's history [[raw, 50x?], ...] *)
+      L (map (fun p => I (plan_code p))
+             (list_plans (map (fun c => (z_of_sx (nth_sx 0 c), negb (z_of_sx (nth_sx 1 c) =? 0))) (list_of_sx (nth_sx 0 a)))))
   | _ => run_listing fn a
   end.
